@@ -374,3 +374,235 @@ def forward(cfg, init, transfer, refine=None, start=None):
                 if changed:
                     work.append(b)
     return ins
+
+
+# ---- path search with truthiness constants -----------------------------------------------------------------------
+# A small path-sensitive reachability: walk the CFG from given start nodes carrying an environment
+#   name -> abstract value,   abstract value = (truth, elements)   truth in {True, False, None(unknown)}
+# Assignments of constants, tuples, non-empty/empty string literals, `'..'.format(..)`, copies of known names and
+# tuple unpacking update the environment; tests over known names prune the infeasible branch.
+
+def truth_of(expr, env):
+    """-> (truth, elts)"""
+    if isinstance(expr, ast.Constant):
+        return (bool(expr.value), None)
+    if isinstance(expr, ast.Name):
+        return env.get(expr.id, (None, None))
+    if isinstance(expr, (ast.Tuple, ast.List)):
+        elts = tuple(truth_of(e, env) for e in expr.elts)
+        return (bool(elts), elts)
+    if isinstance(expr, ast.Dict):
+        return (True if expr.keys else False, None)
+    if isinstance(expr, ast.JoinedStr):
+        lit = any(isinstance(v, ast.Constant) and v.value for v in expr.values)
+        return (True if lit else None, None)
+    if isinstance(expr, ast.UnaryOp) and isinstance(expr.op, ast.Not):
+        t = truth_of(expr.operand, env)[0]
+        return (None if t is None else (not t), None)
+    if isinstance(expr, ast.BoolOp):
+        ts = [truth_of(v, env)[0] for v in expr.values]
+        if isinstance(expr.op, ast.And):
+            if any(t is False for t in ts):
+                return (False, None)
+            if all(t is True for t in ts):
+                return (True, None)
+        else:
+            if any(t is True for t in ts):
+                return (True, None)
+            if all(t is False for t in ts):
+                return (False, None)
+        return (None, None)
+    if isinstance(expr, ast.Call):
+        f = expr.func
+        # 'text {0}'.format(...) / 'text %s' % ... keep their literal characters
+        if isinstance(f, ast.Attribute) and f.attr == 'format' and isinstance(f.value, ast.Constant) \
+                and isinstance(f.value.value, str):
+            import re as _re
+            lit = _re.sub(r'\{[^{}]*\}', '', f.value.value)
+            return (True if lit else None, None)
+        if isinstance(f, ast.Name) and f.id == 'bool' and len(expr.args) == 1:
+            return (truth_of(expr.args[0], env)[0], None)
+        return (None, None)
+    if isinstance(expr, ast.BinOp) and isinstance(expr.op, ast.Mod) and isinstance(expr.left, ast.Constant) \
+            and isinstance(expr.left.value, str):
+        import re as _re
+        lit = _re.sub(r'%[-+ #0-9.]*[a-zA-Z]', '', expr.left.value)
+        return (True if lit else None, None)
+    if isinstance(expr, ast.Compare) and len(expr.ops) == 1:
+        l, r, op = expr.left, expr.comparators[0], expr.ops[0]
+        # len(x) > 0, len(x) != 0, len(x) == 0, len(x) >= 1
+        if isinstance(l, ast.Call) and isinstance(l.func, ast.Name) and l.func.id == 'len' and len(l.args) == 1 \
+                and isinstance(r, ast.Constant) and r.value in (0, 1):
+            t = truth_of(l.args[0], env)[0]
+            if t is None:
+                return (None, None)
+            nonempty = (isinstance(op, (ast.Gt, ast.NotEq)) and r.value == 0) or (isinstance(op, ast.GtE) and r.value == 1)
+            empty = (isinstance(op, ast.Eq) and r.value == 0) or (isinstance(op, ast.Lt) and r.value == 1)
+            if nonempty:
+                return (t, None)
+            if empty:
+                return (not t, None)
+            return (None, None)
+        # x != '' / x == '' / x is None / x is not None
+        for a, b in ((l, r), (r, l)):
+            if isinstance(b, ast.Constant) and (b.value == '' or b.value is None):
+                t = truth_of(a, env)[0]
+                if t is None:
+                    return (None, None)
+                if isinstance(op, (ast.NotEq, ast.IsNot)):
+                    return (True, None) if t else (None, None) if b.value is None else (False, None)
+                if isinstance(op, (ast.Eq, ast.Is)):
+                    return (False, None) if t else (None, None) if b.value is None else (True, None)
+    return (None, None)
+
+
+def _bind(target, val, env):
+    if isinstance(target, ast.Name):
+        if val[0] is None and val[1] is None:
+            env.pop(target.id, None)
+        else:
+            env[target.id] = val
+    elif isinstance(target, (ast.Tuple, ast.List)):
+        elts = val[1]
+        for i, t in enumerate(target.elts):
+            if elts is not None and len(elts) == len(target.elts):
+                _bind(t, elts[i], env)
+            else:
+                _bind(t, (None, None), env)
+    elif isinstance(target, ast.Starred):
+        _bind(target.value, (None, None), env)
+
+
+def truth_transfer(node, env):
+    """environment after the normal completion of a CFG node"""
+    env = dict(env)
+    a = node.ast
+    if node.kind == 'stmt':
+        if isinstance(a, ast.Assign):
+            val = truth_of(a.value, env)
+            for t in a.targets:
+                _bind(t, val, env)
+        elif isinstance(a, ast.AnnAssign) and a.value is not None:
+            _bind(a.target, truth_of(a.value, env), env)
+        elif isinstance(a, ast.AugAssign):
+            if isinstance(a.target, ast.Name):
+                old = env.get(a.target.id, (None, None))[0]
+                new = truth_of(a.value, env)[0]
+                if isinstance(a.op, ast.BitOr) and (old is True or new is True):
+                    env[a.target.id] = (True, None)
+                else:
+                    env.pop(a.target.id, None)
+        elif isinstance(a, (ast.Import, ast.ImportFrom, ast.Delete)):
+            for n in ast.walk(a):
+                if isinstance(n, ast.Name):
+                    env.pop(n.id, None)
+    elif node.kind == 'for':
+        for n in ast.walk(a.target):
+            if isinstance(n, ast.Name):
+                env.pop(n.id, None)
+    elif node.kind == 'except':
+        h = node.ast
+        if getattr(h, 'name', None):
+            env.pop(h.name, None)
+    elif node.kind == 'with':
+        for it in a.items:
+            if it.optional_vars is not None:
+                for n in ast.walk(it.optional_vars):
+                    if isinstance(n, ast.Name):
+                        env.pop(n.id, None)
+    return env
+
+
+def truth_search(g, starts, targets, stop_edge=None, env0=None, limit=200000):
+    """target node ids reachable from `starts` on paths that are feasible under truthiness propagation.
+    stop_edge(a, b, label) -> True cuts the edge.  Returns {target id: predecessor map key} (witness via `trace`)."""
+    from collections import deque
+    tset = {t.id if hasattr(t, 'id') else t for t in targets}
+    seen = {}
+    work = deque()
+    for s in starts:
+        sid = s.id if hasattr(s, 'id') else s
+        key = (sid, frozenset((env0 or {}).items()))
+        seen[key] = None
+        work.append(key)
+    hits = {}
+    steps = 0
+    while work:
+        key = work.popleft()
+        nid, fenv = key
+        env = dict(fenv)
+        node = g.nodes[nid]
+        steps += 1
+        if steps > limit:
+            raise RuntimeError('truth_search: state limit exceeded')
+        if nid in tset and nid not in hits:
+            hits[nid] = key
+        after = None
+        tv = None
+        if node.kind == 'test':
+            tv = truth_of(node.ast, env)[0]
+        for b, lab in g.succ[nid]:
+            if stop_edge is not None and stop_edge(nid, b, lab):
+                continue
+            if lab in ('exc',):
+                nenv = env            # the statement did not complete
+            elif lab == 'raise':
+                nenv = env
+            else:
+                if node.kind == 'test' and tv is not None and lab in (True, False) and lab != tv:
+                    continue
+                if after is None:
+                    after = truth_transfer(node, env)
+                nenv = after
+                if node.kind == 'test' and lab in (True, False):
+                    nenv = _refine(node.ast, lab, nenv)
+            k2 = (b, frozenset(nenv.items()))
+            if k2 not in seen:
+                seen[k2] = key
+                work.append(k2)
+    return hits, seen
+
+
+def _refine(test, label, env):
+    """learn from taking a branch: `if x:` / `if not x:` / `if len(x) > 0` over a plain name"""
+    env = dict(env)
+    t = test
+    want = label
+    while isinstance(t, ast.UnaryOp) and isinstance(t.op, ast.Not):
+        t = t.operand
+        want = not want
+    if isinstance(t, ast.Name):
+        old = env.get(t.id, (None, None))
+        if old[0] is None:
+            env[t.id] = (want, old[1])
+    elif isinstance(t, ast.Compare) and len(t.ops) == 1 and isinstance(t.left, ast.Call) and \
+            isinstance(t.left.func, ast.Name) and t.left.func.id == 'len' and len(t.left.args) == 1 and \
+            isinstance(t.left.args[0], ast.Name) and isinstance(t.comparators[0], ast.Constant) and \
+            t.comparators[0].value == 0 and isinstance(t.ops[0], (ast.Gt, ast.NotEq, ast.Eq)):
+        nm = t.left.args[0].id
+        nonempty = want if not isinstance(t.ops[0], ast.Eq) else (not want)
+        old = env.get(nm, (None, None))
+        if old[0] is None:
+            env[nm] = (nonempty, old[1])
+    return env
+
+
+def trace(seen, key, g, maxlen=40):
+    out = []
+    while key is not None and len(out) < 400:
+        out.append(key[0])
+        key = seen.get(key)
+    out.reverse()
+    lines = []
+    for nid in out:
+        n = g.nodes[nid]
+        if n.stmt is not None:
+            lines.append(n.line)
+    # compress consecutive duplicates
+    comp = []
+    for l in lines:
+        if not comp or comp[-1] != l:
+            comp.append(l)
+    if len(comp) > maxlen:
+        comp = comp[:maxlen // 2] + ['...'] + comp[-maxlen // 2:]
+    return comp
